@@ -418,7 +418,29 @@ def extract_anchor():
     mjoin = re.search(r"SqlTransform::Join \{ filter, \.\. \} => Requirements::from_expr\(filter\),", gr)
     if not (magg and mjoin):
         raise ExtractError("get_requirements: Aggregate/Join arms changed")
+    mtk = re.search(r"Super\(Transform::Take\(rq::Take \{ range, sort, \.\. \}\)\) => \[&range\.start, &range\.end\] \.into_iter\(\) \.flatten\(\) \.map\(Requirements::from_expr\) "
+                    r"\.fold\(Requirements::default\(\), Requirements::append\) \.append\( Requirements::from_cids\(sort\.iter\(\)\.map\(\|s\| &s\.column\)\) \.allow_up_to\(Complexity::(\w+)\) \.should_select\(true\), \),", gr)
+    if not mtk:
+        raise ExtractError("get_requirements: Take arm changed")
+    mdo = re.search(r"SqlTransform::DistinctOn\(partition\) => Requirements::from_cids\(partition\.iter\(\)\) \.allow_up_to\(Complexity::(lowest|highest)\(\)\),", gr)
+    if not mdo:
+        raise ExtractError("get_requirements: DistinctOn arm changed")
+    if not re.search(r'SqlTransform::Sort\(sorts\) if !following\.contains\("Aggregate"\) => \{ Requirements::from_cids\(sorts\.iter\(\)\.map\(\|s\| &s\.column\)\) \}', gr):
+        raise ExtractError("get_requirements: SqlTransform::Sort arm changed")
+    if not gr.strip().endswith("SqlTransform::Join { filter, .. } => Requirements::from_expr(filter), _ => Requirements::default(), }"):
+        raise ExtractError("get_requirements: the match no longer ends with the Join arm and `_ => Requirements::default()`")
+    narms = len(re.findall(r" => ", gr.split("match transform {", 1)[1])) if "match transform {" in gr else -1
+    if narms != 11:      # the 9 arms modelled in Model/WinAtomic.v requirements + the 2 of the inner match on infer_complexity
+        raise ExtractError("get_requirements: %d `=>` where 11 are modelled (an arm was added or removed)" % narms)
     sob = fn_text(ANCHOR, "split_off_back")
+    for what, pat in (
+            ("requirements are taken per transform and appended", r"let required = get_requirements\(&transform, &following_transforms, &inputs_required\); .*? inputs_required = inputs_required\.append\(required\.clone\(\)\);"),
+            ("a materialized compute hands its own allowance on", r"inputs_required = inputs_required \.append\(required\.allow_up_to\(max_complexity\)\.should_select\(false\)\);"),
+            ("the walk pops the pipeline from the back and stops at a required split", r"'pipeline: while let Some\(transform\) = pipeline\.pop\(\) \{ let split = is_split_required\(&transform, &mut following_transforms\); if split \{ .*? pipeline\.push\(transform\); break; \}"),
+            ("the computes of an Aggregate must be materializable", r"SqlTransform::Super\(Transform::Aggregate \{ compute, \.\. \}\) => \{ for cid in compute \{ let decl = &ctx\.column_decls\[cid\]; if let ColumnDecl::Compute\(compute\) = decl \{ if !can_materialize\(compute, &inputs_required\)\.0 \{ pipeline\.push\(transform\); break 'pipeline; \} \} \} \}"),
+            ("the initial requirement is the output at the highest complexity", r"let mut inputs_required = Requirements::from_cids\(output\.iter\(\)\) \.allow_up_to\(Complexity::highest\(\)\) \.should_select\(true\);")):
+        if not re.search(pat, sob):
+            raise ExtractError("split_off_back: %s -- no longer has the modelled shape" % what)
     if not re.search(r"let mut inputs_required = Requirements::from_cids\(output\.iter\(\)\) \.allow_up_to\(Complexity::highest\(\)\) \.should_select\(true\);", sob):
         raise ExtractError("split_off_back: output requirements changed")
     if not re.search(r"let \(can_mat, max_complexity\) = can_materialize\(compute, &inputs_required\); if can_mat \{ .*? \} else \{ pipeline\.push\(transform\); break; \}", sob):
@@ -427,7 +449,8 @@ def extract_anchor():
     dflt = lo if md.group(1) == "lowest" else hi
     return {"order": order, "lowest": lo, "highest": hi, "windowed": mi.group(1), "aggregation": mi.group(2), "can_mat_op": mc.group(1), "default": dflt,
             "compute_plain_key": mcp.group(1), "compute_plain": mcp.group(2), "compute_other": mcp.group(3),
-            "filter_no_agg": mf.group(1), "filter_agg": mf.group(2), "sort": msrt.group(1)}
+            "filter_no_agg": mf.group(1), "filter_agg": mf.group(2), "sort": msrt.group(1), "take_sort": mtk.group(1),
+            "distinct_on": lo if mdo.group(1) == "lowest" else hi}
 
 
 # ----------------------------------------------------------------------------- preprocess.rs reorder
@@ -593,7 +616,7 @@ def generate():
         gen_write("GenWindow", "(* EXTRACTION FAILED: %s *)\nDefinition gen_window_extraction_failed := tt.\n" % str(ex).replace("*)", "* )").replace("(*", "( *"))
         return {"error": str(ex)}
     v = "(* generated from /repo on every run by vplib/translate/gen_window.py -- do not edit *)\n"
-    v += "From Coq Require Import List ZArith NArith Bool.\nFrom PV Require Import Lib.ListX Model.Rel Model.Frame Model.WindowFns Model.WinReorder.\nImport ListNotations.\nLocal Open Scope Z_scope.\n\n"
+    v += "From Coq Require Import List ZArith NArith Bool.\nFrom PV Require Import Lib.ListX Model.Rel Model.Frame Model.WindowFns Model.WinReorder Model.SplitBase Model.WinAtomic Gen.GenSplit.\nImport ListNotations.\nLocal Open Scope Z_scope.\n\n"
     v += "(* sql/std.sql.prql: (module, function, window_frame, coalesce) *)\nDefinition std_fns : list std_fn :=\n  [ "
     items = []
     for f in info["fns"]:
@@ -666,6 +689,9 @@ def generate():
     v += "Definition compute_allows (c : cx) : cx := if cx_eqb c %s then %s else %s.\n" % (CX[a["compute_plain_key"]], CX[a["compute_plain"]], CX[a["compute_other"]])
     v += "Definition filter_allows (aggregate_follows : bool) : cx := if negb aggregate_follows then %s else %s.\n" % (CX[a["filter_no_agg"]], CX[a["filter_agg"]])
     v += "Definition sort_allows : cx := %s.\n" % CX[a["sort"]]
+    v += "Definition take_sort_allows : cx := %s.\nDefinition distinct_on_allows : cx := %s.\n" % (CX[a["take_sort"]], CX[a["distinct_on"]])
+    v += ("(* the tables Model/WinAtomic.v is parametrised by: the arms of get_requirements + is_split_required (Gen/GenSplit.v) *)\n"
+          "Definition code_req_tables : req_tables :=\n  mk_req_tables complexity_order cx_highest requirement_default compute_allows filter_allows sort_allows take_sort_allows distinct_on_allows split_required records.\n")
     v += "(* what a use of a column inside one SELECT allows the column's complexity to be *)\n"
     v += ("Definition consumer_allows (u : consumer) : cx :=\n  match u with\n  | UWhere => filter_allows true        (* a filter in front of the SELECT's aggregate *)\n"
           "  | UHaving => filter_allows false\n  | UGroupKey => requirement_default\n  | UAggArg => compute_allows aggregation_complexity\n"
